@@ -90,24 +90,20 @@ impl VisitMut for BlockTransformVisitor<'_> {
             crate::verif_hooks::emit("prologue", self.config.file_prefix_code.len() as i64, 0, "");
             match node {
                 Program::Script(script) => {
-                    let mut index = 0;
-                    if let Some(stmt) = script.body.first() {
-                        if stmt.is_use_strict() {
-                            index = 1;
-                        }
-                    }
+                    let index = get_variable_insertion_index(&script.body);
 
                     for prefix_statement in self.config.file_prefix_code.iter().rev() {
                         script.body.insert(index, prefix_statement.clone());
                     }
                 }
                 Program::Module(module) => {
-                    let mut index = 0;
-                    if let Some(ModuleItem::Stmt(stmt)) = module.body.first() {
-                        if stmt.is_use_strict() {
-                            index = 1;
-                        }
-                    }
+                    let index = module
+                        .body
+                        .iter()
+                        .take_while(|item| {
+                            matches!(item, ModuleItem::Stmt(stmt) if stmt.can_precede_directive())
+                        })
+                        .count();
 
                     for prefix_statement in self.config.file_prefix_code.iter().rev() {
                         module
@@ -155,10 +151,11 @@ fn insert_variable_declaration(ident_expressions: &[Ident], expr: &mut BlockStmt
     }
 }
 
+// injected statements go after the whole directive prologue ('use strict' and any other
+// leading string-literal expression statement), never before or inside it
 fn get_variable_insertion_index(stmts: &[Stmt]) -> usize {
-    if !stmts.is_empty() && stmts[0].is_use_strict() {
-        1
-    } else {
-        0
-    }
+    stmts
+        .iter()
+        .take_while(|stmt| stmt.can_precede_directive())
+        .count()
 }
